@@ -80,6 +80,28 @@ class Observed:
     pass
 
 
+class deterministic_uuid:
+    """uuid.uuid4 from a counter while the call runs: the dataset uuid and the keys of the
+    dask.delayed(pure=False) tasks (hence the order in which the synchronous scheduler runs
+    them) are then the same in every run, which makes fault positions comparable across runs"""
+
+    def __enter__(self):
+        import uuid
+        self._orig = uuid.uuid4
+        cnt = [0]
+
+        def uuid4():
+            cnt[0] += 1
+            return uuid.UUID(int=(0x5eed << 96) | cnt[0], version=4)
+        uuid.uuid4 = uuid4
+        return self
+
+    def __exit__(self, *a):
+        import uuid
+        uuid.uuid4 = self._orig
+        return False
+
+
 def read_rids(abspath):
     import pyarrow.parquet as pq
     try:
@@ -116,7 +138,7 @@ def run_pack(root, df, cuts, k, mode, compression='snappy', overwrite=False, pla
     if K is not None:
         kw['_retry_args'] = dict(wait_fixed=0, stop_max_attempt_number=K)
     o.raised, o.frame = None, None
-    with dask.config.set(scheduler='synchronous'):
+    with dask.config.set(scheduler='synchronous'), deterministic_uuid():
         try:
             o.frame = ddf.pack_partitions_to_parquet(
                 os.path.join(root, DS), filesystem=fs, npartitions=k, compression=compression,
